@@ -39,6 +39,10 @@ def whileM {σ : Type} (cond : σ → Res Bool) (body : σ → Res σ) : Nat →
       | .error e => .error e
       | .ok s' => whileM cond body n s'
 
+/-- condition and body of a lifted `while` loop, as a pair over the same state type -/
+def mkLoop {σ : Type} (cond : σ → Bool) (body : σ → σ) : (σ → Bool) × (σ → σ) := (cond, body)
+def mkLoopM {σ : Type} (cond : σ → Res Bool) (body : σ → Res σ) : (σ → Res Bool) × (σ → Res σ) := (cond, body)
+
 /-- `np.diff(polyline, axis=0)`: the difference vectors of consecutive points. -/
 def diff : List Pt → List Pt
   | a :: b :: t => (b.1 - a.1, b.2 - a.2) :: diff (b :: t)
